@@ -87,10 +87,12 @@ class RustRender:
             return f"f64::from_bits({le(v):#x})"
         if k == "char":
             return f"char::from_u32({le(v):#x}).unwrap()"
+        # strings and lists are built with spare capacity, as user code typically does (push_str, format!, collect):
+        # what crosses the boundary is (ptr, len), what has to be freed is the whole allocation
         if k == "string":
-            return "String::from_utf8(vec![" + ", ".join(str(b) for b in v) + "]).unwrap()"
+            return "cap_s(&[" + ", ".join(str(b) for b in v) + "])"
         if k == "list":
-            return "vec![" + ", ".join(self.val(t["t"], x) for x in v) + "]"
+            return "cap_v(vec![" + ", ".join(self.val(t["t"], x) for x in v) + "])"
         if k == "option":
             return f"Some({self.val(t['t'], v['v'])})" if v["some"] else "None"
         if k == "result":
@@ -286,9 +288,12 @@ def test_main(unit, bindings_src, has_post_return):
     sig = lift["sig"]
     cparams = ", ".join(f"a{i}: {core_rust(t)}" for i, t in enumerate(sig["params"]))
     cret = (" -> " + core_rust(sig["results"][0])) if sig["results"] else ""
-    out = ["#![allow(unused, non_snake_case, clippy::all)]", "#[global_allocator]", "static LEDGER: vhost::Ledger = vhost::Ledger;",
+    out = ["#![allow(unused, non_snake_case, clippy::all)]",
            "#[allow(warnings)]", "mod bindings { include!(\"w_native.rs\"); }", "use std::cell::Cell;",
-           "thread_local! { static CASE: Cell<usize> = const { Cell::new(0) }; }", "struct Impl;",
+           "thread_local! { static CASE: Cell<usize> = const { Cell::new(0) }; }",
+           "fn cap_s(b: &[u8]) -> String { let mut s = String::with_capacity(b.len() + 13); s.push_str(std::str::from_utf8(b).unwrap()); s }",
+           "fn cap_v<T>(v: Vec<T>) -> Vec<T> { let mut w = Vec::with_capacity(v.len() + 5); w.extend(v); w }",
+           "struct Impl;",
            "impl bindings::exports::t::w::e::Guest for Impl {",
            "    fn f(" + ", ".join(f"x{i}: {t}" for i, t in enumerate(ptys)) + ")" + (f" -> {rty}" if has_res else "") + " {",
            "        // what the export received goes straight back out through the import, where the host compares it with the spec",
